@@ -18,6 +18,7 @@ import (
 	"errors"
 	"fmt"
 	"net"
+	"os"
 	"reflect"
 	"runtime"
 	"sort"
@@ -584,7 +585,7 @@ func authOp(d *brokerDrv, pos []string, m map[string]string) string {
 		return "bad-op"
 	}
 	c := d.b.Conns[pos[0]]
-	if c == nil {
+	if c == nil || c.EOF() {
 		return "no-conn"
 	}
 	ap := &packets.Auth{Code: byte(geti(m, "code", 24)), Properties: &packets.Properties{}}
@@ -595,6 +596,9 @@ func authOp(d *brokerDrv, pos []string, m map[string]string) string {
 		ap.Properties.AuthData = []byte(unesc(v))
 	}
 	if err := c.Send(ap); err != nil {
+		if os.Getenv("VERIF_LOG") != "" {
+			fmt.Fprintln(os.Stderr, "auth send:", err)
+		}
 		return "send-failed " + d.collect("")
 	}
 	return d.collect("")
